@@ -18,6 +18,8 @@ pub unsafe fn match_uri_vectored(bytes: &mut Bytes) {
 #[allow(non_snake_case)]
 unsafe fn match_url_char_16_sse(buf: &[u8]) -> usize {
     debug_assert!(buf.len() >= 16);
+    #[cfg(httparse_verif)]
+    crate::iter::verif_counters::SSE42_LOADS.fetch_add(1, core::sync::atomic::Ordering::Relaxed);
 
     #[cfg(target_arch = "x86")]
     use core::arch::x86::*;
@@ -57,6 +59,8 @@ pub unsafe fn match_header_value_vectored(bytes: &mut Bytes) {
 #[allow(non_snake_case)]
 unsafe fn match_header_value_char_16_sse(buf: &[u8]) -> usize {
     debug_assert!(buf.len() >= 16);
+    #[cfg(httparse_verif)]
+    crate::iter::verif_counters::SSE42_LOADS.fetch_add(1, core::sync::atomic::Ordering::Relaxed);
 
     #[cfg(target_arch = "x86")]
     use core::arch::x86::*;
